@@ -10,9 +10,9 @@ import ShVerif.Expect.C28Sites
   reviewed expectation.  Whole-interpreter panic freedom is explored by the harness's search leg
   only.
 
-  Four statements that were false on the pinned tree (shift, getopts, arithmetic l-values,
-  associative subscripts) hold since the fix: commits 2d6a9e4, 77cabce, fd86341, 443024b and are
-  full theorems now.  Statements that are
+  All five statements that were false on the pinned tree (shift, getopts, arithmetic l-values,
+  associative subscripts, Params) hold since the fix: commits 2d6a9e4, 77cabce, fd86341, 443024b,
+  a1547ff and are full theorems now.  Statements that are
   still false of the model (hence of the code: each counter-example is replayed on
   the real interpreter on every run) are kept as `def …_statement : Prop`, with the `…_partial`
   theorem under the exact extra hypothesis and the refutation of the full statement.
@@ -48,20 +48,13 @@ theorem flagparser_safe (args : List Bytes) (ops : List FOp)
     (h : fpObeys (FP.init args) false ops = true) : (fpRun (FP.init args) ops).2 = false :=
   fpRun_safe ops (FP.init args) false (fun h => by cases h) h
 
-/-- Full statement: `Params(args...)` never panics, whether or not a stdout writer is set. -/
-def params_safe_statement : Prop := ∀ stdoutSet opts args, params stdoutSet opts args ≠ .panic
-
-/-- With a stdout writer, `Params` (the `set` builtin) never panics — in particular `flag[0]` and
-    `flag[1]` are in range — and the fuel of the model suffices. -/
-theorem params_partial (opts : List Bool) (args : List Bytes) :
-    params true opts args ≠ .panic ∧ params true opts args ≠ .outOfFuel := by
+/-- `Params(args...)` — the `set` builtin, and the option to `New` in any position — never panics
+    (in particular `flag[0]`, `flag[1]` are in range and listings are printed through a non-nil
+    writer: full statement since fix a1547ff), and the fuel of the model suffices. -/
+theorem params_safe (opts : List Bool) (args : List Bytes) :
+    params opts args ≠ .panic ∧ params opts args ≠ .outOfFuel := by
   unfold params
   exact paramsLoop_safe _ _ _ (by rw [fpSize_init]; omega) (Or.inl rfl)
-
-/-- `interp.New(interp.Params("-o"))`: the listing is printed through a nil `r.stdout`. -/
-theorem params_counterexample : ¬ params_safe_statement := by
-  intro h
-  exact h false [false, false, false, false, false, false, false] [[45, 111]] (by decide)
 
 /-! ## break / continue, exit / return, wait -/
 
@@ -167,7 +160,9 @@ example : arithLvalue .unary = .ok none := by decide
 example : assocIndex .binary = .ok false := by decide
 example : fpObeys (FP.init [[45, 97, 98], [120]]) false [.more, .flag, .more, .flag, .more, .args] = true := by decide
 example : (fpRun (FP.init []) [.flag]).2 = true := by decide
-example : params true [false, false, false, false, false, false, false] [[45, 101], [45, 45], [120]]
+example : (params [false, false, false, false, false, false, false] [[45, 111]]) =
+    .ok ⟨[false, false, false, false, false, false, false], none, 1⟩ := by decide
+example : params [false, false, false, false, false, false, false] [[45, 101], [45, 45], [120]]
     = .ok ⟨[false, true, false, false, false, false, false], some [[120]], 0⟩ := by decide
 example : sliceStr [97, 98, 99] (some (-1)) (some 5) = .ok (some [99]) := by decide
 example : sliceStr [97, 98, 99] (some 2) (some (-5)) = .ok none := by decide
